@@ -650,6 +650,53 @@ func ruleSniffScan(c *eng.Ctx) {
 		return
 	}
 	okOrder := hm != nil && hc != nil && hw != nil && hm != hc && hc != hw && hm.Dominates(hc) && hc.Dominates(hw)
+	if !okOrder && hm != hc && hc == hw && hm.Dominates(hc) {
+		// container.xml and the prefixes looked for in one pass: the container still takes precedence when the pass
+		// can only end early with the container's answer (a prefix match is remembered, not returned, until every
+		// member has been seen)
+		body := map[*ssa.BasicBlock]bool{hc: true}
+		var stack []*ssa.BasicBlock
+		for _, p := range hc.Preds {
+			if hc.Dominates(p) {
+				stack = append(stack, p)
+			}
+		}
+		for len(stack) > 0 {
+			b := stack[len(stack)-1]
+			stack = stack[:len(stack)-1]
+			if body[b] {
+				continue
+			}
+			body[b] = true
+			stack = append(stack, b.Preds...)
+		}
+		isContainer := func(f eng.Fact) bool {
+			op, x, y, ok := f.Cmp()
+			if !ok || op != token.EQL {
+				return false
+			}
+			for _, v := range []ssa.Value{x, y} {
+				if cs, ok := eng.ConstString(v); ok && cs == "META-INF/container.xml" {
+					return true
+				}
+			}
+			return false
+		}
+		okOrder = true
+		for b := range body {
+			if b == hc {
+				continue // leaving at the header: every member has been seen
+			}
+			for i, sx := range b.Succs {
+				if body[sx] {
+					continue
+				}
+				if !eng.GuardedBy(fn, b, isContainer) && !eng.AnyEdgeFact(eng.Edge{From: b, Succ: i}, isContainer) {
+					okOrder = false
+				}
+			}
+		}
+	}
 	c.Check(okOrder, R, "format.detectZIPFormat#order", fn.Pos(), "mimetype, then container.xml, then OOXML prefixes", "sniffing stages are not three separate full scans in the order mimetype, container.xml, prefixes (an ODT with an embedded xl/ member would be mis-detected)")
 	// mimetype values
 	okMime := false
